@@ -238,9 +238,11 @@ func runCancelCase(c cancelCase) *Violation {
 		total := ops
 		// the order in which a merge writes its sections varies from call to call, and with it
 		// what still follows an engine operation: every closure point is tried several times
-		reps := int64(6)
-		if total > 20 {
+		reps := int64(24)
+		if total > 40 {
 			reps = 3
+		} else if total > 20 {
+			reps = 6
 		}
 		for jj := int64(0); jj < reps*min(total, 60); jj++ {
 			j := jj%min(total, 60) + 1
